@@ -15,13 +15,23 @@ Decided (structural clauses only):
   R-FOOT     lower-bound footprints of the fragmented lookups: offset reads tfhd.base_data_offset, the recorded moof
              offset, trun.data_offset and trun.sample_sizes; time reads tfdt, tfhd.default_sample_duration,
              trun.sample_durations and the movie-level default; rendering offset reads trun.sample_cts.
-NOT decided: the offset/time arithmetic, duration inheritance order, and the known questionable choices visible while
-reading (start time under default durations uses the global sample index, is_sync for fragments is a heuristic, one
-trex is shared by all tracks) - these are value-level relations with no static argument in reach.
+  R-UNITS    dimension and scope typing (rules/units.py) of the fragmented branches of sample_size / sample_offset /
+             sample_time / sample_rendering_offset / sample_count and of find_traf_idx_and_sample_idx: base data offset,
+             moof offset and base decode time are origins of ONE fragment, the per-run arrays of trun are indexed by a
+             run-relative sample index, default durations are per-sample rates; an operation that adds a file-relative
+             quantity to a fragment origin, indexes a run array with a file-relative index, mixes bytes with ticks or
+             forms a byte / tick product in 32 bits is reported.  (Found on the pinned tree and repaired: the
+             default-duration start time was (sample_id - 1) * duration added to the fragment's own decode time.)
+NOT decided: the values themselves (constants are polymorphic in R-UNITS: off-by-one errors), the duration inheritance
+order, and two choices outside the statement that are visible while reading: is_sync for fragments is a heuristic
+(`sample_id % n`, dimensionally meaningless and excluded from R-UNITS because C09 says nothing about sync flags), and one
+trex is shared by all tracks.
 """
 import re
 
 import hirq
+
+UNITS_FLOOR = 88      # dimension checks counted on the pinned tree in the fragmented + common regions
 from callgraph import callgraph
 from facts import short
 from mir import body_of, callee_path, op_place
@@ -366,8 +376,13 @@ def run(fx, chk, tier):
                     chk.require(base in ("self.trafs", "self.moof_offsets"), "R-INDEX", "%s|use|%s" % (nm, base), "index applied to %s" % base,
                                 "%s applies the fragment index to %s" % (nm, base), site_of(fn, t.get("line")))
         chk.floor("R-INDEX", "uses of the fragment index", users, 5)
+    # ---------------- R-UNITS
+    import units
+    chk.rule("R-UNITS", "every operation of the fragmented lookup branches combines dimensionally compatible quantities (units, absolute/relative, file/fragment scope, 64-bit sums)")
+    units.run_rule(fx, chk, "R-UNITS", [("Mp4Track", "read_sample"), ("Mp4Track", "sample_offset"), ("Mp4Track", "sample_count")], regions=("frag", None),
+                   exclude={("Mp4Track::is_sync_sample", "frag")}, floor=UNITS_FLOOR, what="in the fragmented lookups")
     return chk.finish(
         "other",
-        "Sibling agreement of the two attach implementations (normalised HIR equality), the count accumulation, the recorded-offset source and lower-bound field footprints are decided. "
-        "The offset/time arithmetic of fragmented lookup - the core of C09 - is NOT decided.",
+        "Sibling agreement of the two attach implementations (normalised HIR equality), the count accumulation, the recorded-offset source, lower-bound field footprints and the dimensional consistency "
+        "(units, absolute/relative, file/fragment scope, 64-bit arithmetic) of every operation in the fragmented lookup branches are decided. The values the formulas produce are NOT decided (constants are polymorphic in the typing).",
     )
